@@ -13,13 +13,43 @@ import sys
 
 VERIF = os.path.dirname(os.path.dirname(os.path.abspath(__file__)))
 only = sys.argv[sys.argv.index("--only") + 1] if "--only" in sys.argv else None
+shard = sys.argv[sys.argv.index("--shard") + 1] if "--shard" in sys.argv else None  # "i/n": this process takes every n-th job and works in its own scratch worktree (/repo is not touched)
+merge = "--merge" in sys.argv  # compose MATRIX.md (and the meta.json files) from the row files the shards left in /tmp
 update = sys.argv[sys.argv.index("--update") + 1] if "--update" in sys.argv else None  # re-run the matching changes and merge their rows into the existing MATRIX.md
 if update:
     only = update
 EXTRA = {"C01-m2": ["C03"], "C02-m1": ["C03"], "C04-m2": ["C03"], "C16-m2": ["C15"], "C19-m2": ["C13"], "C11-m2": []}
 
 
+def run_in_worktree(patch, pid, wt):
+    head = subprocess.run(["git", "-C", "/repo", "rev-parse", "HEAD"], capture_output=True, text=True).stdout.strip()
+    subprocess.run(["git", "-C", wt, "reset", "-q", "--hard", head], check=True)
+    r = subprocess.run(["git", "-C", wt, "apply", patch], capture_output=True, text=True)
+    if r.returncode:
+        return "DOES-NOT-APPLY", "", r.stderr.strip()[:100]
+    env = dict(os.environ, VERIF_REPLAYS=os.path.join(wt + "_replays"))
+    p = subprocess.run(["./check", pid, "--tier", "quick", "--no-evidence", "--root", wt], capture_output=True, text=True, cwd=VERIF, env=env)
+    subprocess.run(["git", "-C", wt, "reset", "-q", "--hard", head], check=True)
+    return verdict_of(p)
+
+
+def verdict_of(p):
+    viol = [l for l in p.stdout.splitlines() if l.startswith("VIOLATION")]
+    confirmed = [v for v in viol if not v.endswith("no-failing-input-found")]
+    names = [os.path.basename(v.split("replay=")[1].split()[0])[:-5] for v in viol]
+    deductive = [n for n in names if not re.search(r"sweep|golden|codec$|reference_codec|history_codec|native$", n)]
+    verdict = "DETECTED" if p.returncode == 1 and viol else "MISSED" if p.returncode == 0 else f"NO-VERDICT(exit {p.returncode})"
+    how = []
+    if deductive:
+        how.append("deductive obligation " + deductive[0])
+    if len(deductive) < len(names):
+        how.append("bounded native sweep")
+    return verdict, "; ".join(how), f"{len(viol)} violation line(s), {len(confirmed)} replayed on the real code"
+
+
 def run(patch, pid):
+    if shard:
+        return run_in_worktree(patch, pid, WT)
     st = subprocess.run(["git", "-C", "/repo", "status", "--porcelain", "--untracked-files=no"], capture_output=True, text=True).stdout.strip()
     if st:
         sys.exit("refusing: /repo has uncommitted changes")
@@ -63,6 +93,33 @@ for d in sorted(glob.glob(os.path.join(VERIF, "selftest", "manual", "*.diff"))):
     m = re.search(r"reintroduce_([0-9a-f]{7})", d)
     if m and m.group(1) in fixed:
         jobs.append(("manual " + m.group(1), d, [fixed[m.group(1)][0]], "re-introduces the repaired defect (hand made, the plain revert conflicts): " + fixed[m.group(1)][1][:90]))
+if merge:
+    import json as _json
+
+    rows = []
+    for fn in sorted(glob.glob("/tmp/matrix_rows_*.json")):
+        rows += [tuple(r) for r in _json.load(open(fn))]
+    order = {j[0]: i for i, j in enumerate(jobs)}
+    rows.sort(key=lambda r: (order.get(r[0], 10**6), r[1]))
+    for sid, patch, pids, what in jobs:
+        if sid.startswith("C"):
+            mine = [r for r in rows if r[0] == sid and r[1] == pids[0]]
+            if mine:
+                mp = os.path.join(os.path.dirname(patch), "meta.json")
+                meta = json.load(open(mp))
+                v, how, n = mine[0][2], mine[0][3], mine[0][4]
+                meta["detected_by"] = f"./check {pids[0]} --tier quick: {v}" + (f" ({how}; {n})" if how else "")
+                json.dump(meta, open(mp, "w"), indent=1)
+    jobs = []
+WT = None
+if shard:
+    si, sn = map(int, shard.split("/"))
+    WT = f"/tmp/mx_wt_{si}"
+    subprocess.run(["git", "-C", "/repo", "worktree", "remove", "--force", WT], capture_output=True)
+    subprocess.run(["git", "-C", "/repo", "worktree", "add", "--detach", WT, "HEAD", "-q"], check=True)
+    flat = [(sid, patch, pid, what) for sid, patch, pids, what in jobs for pid in pids]
+    # (the slow checks first within a shard does not matter; the jobs are dealt round robin)
+    jobs = [(sid, patch, [pid], what) for k, (sid, patch, pid, what) in enumerate(flat) if k % sn == si]
 for sid, patch, pids, what in jobs:
     if only and only not in sid:
         continue
@@ -70,6 +127,9 @@ for sid, patch, pids, what in jobs:
         v, how, n = run(patch, pid)
         rows.append((sid, pid, v, how, n, what))
         print(sid, pid, v, how, n, flush=True)
+        if shard:
+            json.dump(rows, open(f"/tmp/matrix_rows_{shard.split('/')[0]}.json", "w"))
+            continue
         if sid.startswith("C") and pid == pids[0]:
             mp = os.path.join(os.path.dirname(patch), "meta.json")
             meta = json.load(open(mp))
@@ -87,7 +147,10 @@ if update:
     merged = [r for r in old_rows if (r[0], r[1]) not in new_keys and any(r[0] == j[0] for j in jobs)] + rows
     order = {j[0]: i for i, j in enumerate(jobs)}
     rows = sorted(merged, key=lambda r: (order.get(r[0], 10**6), r[1]))
-if not only or update:
+if shard:
+    subprocess.run(["git", "-C", "/repo", "worktree", "remove", "--force", WT], capture_output=True)
+    sys.exit(0)
+if not only or update or merge:
     with open(os.path.join(VERIF, "seeded", "MATRIX.md"), "w") as f:
         f.write("# Which check catches which change\n\nGenerated by `tools/matrix.py` (quick tier, each patch applied to /repo, checked, undone).\n"
                 "`deductive obligation` = a named proof obligation fails (the first one is shown); `bounded native sweep` = only / also the bounded stand-in on the real code reports it.\n\n"
